@@ -212,6 +212,10 @@ pub(crate) struct GlobalCollector {
     commit_collects: Vec<CommitCollect>,
     submit_spans: Vec<SubmitSpans>,
     stale_spans: Vec<SpanCollection>,
+
+    // Commits that were first seen in the second drain pass of a cycle. They are handled at the
+    // start of the next cycle, see `handle_commands`.
+    deferred_commits: Vec<CommitCollect>,
 }
 
 impl GlobalCollector {
@@ -227,6 +231,7 @@ impl GlobalCollector {
             commit_collects: vec![],
             submit_spans: vec![],
             stale_spans: vec![],
+            deferred_commits: vec![],
         };
 
         *GLOBAL_COLLECTOR.lock() = Some(global_collector);
@@ -268,8 +273,11 @@ impl GlobalCollector {
         #[cfg(fastrace_verif)]
         let mut verif_rx_index = 0usize;
 
+        commit_collects.append(&mut self.deferred_commits);
+
         {
-            SPSC_RXS.lock().retain_mut(|rx| {
+            let mut rxs = SPSC_RXS.lock();
+            rxs.retain_mut(|rx| {
                 #[cfg(fastrace_verif)]
                 {
                     crate::verif::hook(crate::verif::Point::BeforeReceiver(verif_rx_index));
@@ -296,6 +304,26 @@ impl GlobalCollector {
                     }
                 }
             });
+
+            // The channels are drained one after another, so a commit popped from one channel may
+            // be younger than commands that were pushed to a channel visited earlier: spans that
+            // finished before their root on another thread, a `cancel()`, or the start of the
+            // trace. Everything that was pushed before such a commit was pushed is in its channel
+            // by now, so drain all channels once more. Commits that only show up in this second
+            // pass wait for the next cycle, because what precedes *them* may not be drained yet.
+            let first_pass_commits = commit_collects.len();
+            for rx in rxs.iter_mut() {
+                while let Ok(Some(cmd)) = rx.try_recv() {
+                    match cmd {
+                        CollectCommand::StartCollect(cmd) => start_collects.push(cmd),
+                        CollectCommand::DropCollect(cmd) => drop_collects.push(cmd),
+                        CollectCommand::CommitCollect(cmd) => commit_collects.push(cmd),
+                        CollectCommand::SubmitSpans(cmd) => submit_spans.push(cmd),
+                    }
+                }
+            }
+            self.deferred_commits
+                .extend(commit_collects.drain(first_pass_commits..));
         }
 
         // If the reporter is not set, global collectior only clears the channel and then dismiss
@@ -305,6 +333,7 @@ impl GlobalCollector {
             drop_collects.clear();
             commit_collects.clear();
             submit_spans.clear();
+            self.deferred_commits.clear();
             return;
         }
 
